@@ -25,6 +25,7 @@ struct Swarm {
     w_term: u32,
     w_shared: u32,
     w_anchor: u32,
+    w_twin: u32,
     p_crash: f64,
     vmax: u8,
 }
@@ -48,6 +49,7 @@ pub fn gen_episode(verif_seed: u64, index: u64) -> Episode {
         w_term: *rng.pick(&[0, 5, 10]),
         w_shared: *rng.pick(&[0, 10, 25]),
         w_anchor: *rng.pick(&[5, 10, 20]),
+        w_twin: *rng.pick(&[0, 4, 8, 15]),
         p_crash: if faulty { *rng.pick(&[0.03, 0.08, 0.2]) } else { 0.0 },
         vmax: *rng.pick(&[6u8, 10, 10, 20, 40]),
     };
@@ -225,6 +227,9 @@ fn gen_op(
         /* 12 ImgRender   */ if have_img.is_empty() || !any_qr { 0 } else { sw.w_img },
         /* 13 Term        */ if any_qr { sw.w_term } else { 0 },
         /* 14 RenderAnchor*/ if sw.w_svg + sw.w_term > 0 { sw.w_anchor / 2 } else { 0 },
+        /* 15 BuilderTwin */ sw.w_twin,
+        /* 16 SvgTwin     */ if any_qr && sw.w_svg > 0 { sw.w_twin } else { 0 },
+        /* 17 ImgTwin     */ if any_qr && sw.w_img > 0 { sw.w_twin / 3 } else { 0 },
     ];
     let pick_qr = |rng: &mut Rng| -> QrRef {
         if n_shared_q > 0 && (have_q.is_empty() || rng.chance(2, 5)) {
@@ -400,9 +405,162 @@ fn gen_op(
             let pixmap = rng.chance(1, 3);
             ops.push(faulted(rng, sw, Op::ImgRender { slot, qr, pixmap }, None));
         }
-        _ => {
+        13 => {
             let qr = pick_qr(rng);
             ops.push(faulted(rng, sw, Op::Term { qr }, None));
         }
+        15 => gen_builder_twin(rng, sw, tg, inputs.len(), ops),
+        16 => {
+            let qr = pick_qr(rng);
+            gen_render_twin(rng, sw, tg, false, qr, ops);
+        }
+        _ => {
+            let qr = pick_qr(rng);
+            gen_render_twin(rng, sw, tg, true, qr, ops);
+        }
+    }
+}
+
+// ---------------------------------------------------------------------------
+// Order twins: two different call orders that must reach the same final options
+// ---------------------------------------------------------------------------
+
+fn rkind(s: &RSetter) -> Option<u8> {
+    Some(match s {
+        RSetter::Margin(_) => 0,
+        RSetter::ModuleColor(_) => 1,
+        RSetter::BackgroundColor(_) => 2,
+        RSetter::Image(_) => 3,
+        RSetter::ImageBgColor(_) => 4,
+        RSetter::ImageBgShape(_) => 5,
+        RSetter::ImageSize(_) => 6,
+        RSetter::ImageGap(_) => 7,
+        RSetter::ImagePosition(_, _) => 8,
+        RSetter::FitWidth(_) => 9,
+        RSetter::FitHeight(_) => 10,
+        RSetter::Shape(_) | RSetter::ShapeColor(_, _) => return None,
+    })
+}
+
+fn bkind(s: &BSetter) -> u8 {
+    match s {
+        BSetter::Mode(_) => 0,
+        BSetter::Ecl(_) => 1,
+        BSetter::Version(_) => 2,
+        BSetter::Mask(_) => 3,
+    }
+}
+
+/// A random reordering that provably reaches the same model: the appended
+/// items keep their relative order, and for every scalar option the call that
+/// was last stays last among the calls of that option.
+fn model_preserving_shuffle<T: Clone>(rng: &mut Rng, items: &[T], kind: impl Fn(&T) -> Option<u8>) -> Vec<T> {
+    let n = items.len();
+    let unit = |rng: &mut Rng| (rng.below(1_000_000) as f64 + 1.0) / 1_000_001.0;
+    let mut keys = vec![0.0f64; n];
+    // appended items: increasing keys
+    let app: Vec<usize> = (0..n).filter(|&i| kind(&items[i]).is_none()).collect();
+    let mut ak: Vec<f64> = app.iter().map(|_| unit(rng)).collect();
+    ak.sort_by(|a, b| a.partial_cmp(b).unwrap());
+    for (j, &i) in app.iter().enumerate() {
+        keys[i] = ak[j];
+    }
+    // scalars: the final call of each kind gets a free key, earlier calls a smaller one
+    for k in 0..=10u8 {
+        let of_kind: Vec<usize> = (0..n).filter(|&i| kind(&items[i]) == Some(k)).collect();
+        if let Some((&last, earlier)) = of_kind.split_last() {
+            let fk = 0.05 + 0.95 * unit(rng);
+            keys[last] = fk;
+            for &i in earlier {
+                keys[i] = fk * unit(rng) * 0.999;
+            }
+        }
+    }
+    let mut order: Vec<usize> = (0..n).collect();
+    order.sort_by(|&a, &b| keys[a].partial_cmp(&keys[b]).unwrap().then(a.cmp(&b)));
+    order.into_iter().map(|i| items[i].clone()).collect()
+}
+
+/// Two builders over the same input, the same setter multiset in two orders, both built.
+fn gen_builder_twin(rng: &mut Rng, sw: &Swarm, tg: &mut TaskGen, n_inputs: usize, ops: &mut Vec<OpSpec>) {
+    let input = rng.usize_below(n_inputs) as u8;
+    let n = rng.range(2, 6) as usize;
+    let mut setters: Vec<BSetter> = (0..n).map(|_| gen::gen_bsetter(rng, sw.vmax)).collect();
+    // make overwriting likely: repeat one option with another value
+    if rng.chance(1, 2) {
+        let again = match rng.pick(&setters).clone() {
+            BSetter::Mode(_) => BSetter::Mode(2),
+            BSetter::Ecl(_) => BSetter::Ecl(rng.below(4) as u8),
+            BSetter::Version(_) => BSetter::Version(rng.range(1, sw.vmax as u64) as u8),
+            BSetter::Mask(_) => BSetter::Mask(rng.below(8) as u8),
+        };
+        setters.push(again);
+    }
+    let twin = model_preserving_shuffle(rng, &setters, |s| Some(bkind(s)));
+    debug_assert_eq!(
+        setters.iter().fold(QrCfg::default(), |mut m, s| {
+            m.apply(s);
+            m
+        }),
+        twin.iter().fold(QrCfg::default(), |mut m, s| {
+            m.apply(s);
+            m
+        }),
+        "twin must reach the same builder model"
+    );
+    let (sa, sb) = (0u8, 1u8);
+    tg.builders[sa as usize] = true;
+    tg.builders[sb as usize] = true;
+    ops.push(plain(Op::NewBuilder { slot: sa, input }));
+    for s in &setters {
+        ops.push(plain(Op::Set { slot: sa, s: s.clone() }));
+    }
+    ops.push(plain(Op::NewBuilder { slot: sb, input }));
+    for s in &twin {
+        ops.push(plain(Op::Set { slot: sb, s: s.clone() }));
+    }
+    let (oa, ob) = (rng.usize_below(N_QR_SLOTS) as u8, rng.usize_below(N_QR_SLOTS) as u8);
+    tg.qrs[oa as usize] = true;
+    tg.qrs[ob as usize] = true;
+    ops.push(faulted(rng, sw, Op::Build { slot: sa, out: oa }, None));
+    ops.push(faulted(rng, sw, Op::Build { slot: sb, out: ob }, None));
+}
+
+/// Two renderer builders, the same setter multiset in two orders, both rendered on the same QR code.
+fn gen_render_twin(rng: &mut Rng, sw: &Swarm, tg: &mut TaskGen, is_img: bool, qr: QrRef, ops: &mut Vec<OpSpec>) {
+    let n = rng.range(2, 7) as usize;
+    let mut setters: Vec<RSetter> = (0..n).map(|_| gen::gen_rsetter(rng, is_img, is_img, false)).collect();
+    // the interesting pairs: a shape next to the colour it will be drawn with, an option set twice
+    if rng.chance(2, 3) {
+        setters.push(RSetter::Shape(gen::gen_shape(rng, false)));
+        setters.push(RSetter::ModuleColor(gen::gen_color(rng, is_img)));
+    }
+    if rng.chance(1, 3) {
+        setters.push(RSetter::Margin(*rng.pick(&[0usize, 1, 3, 6])));
+        setters.push(RSetter::Margin(*rng.pick(&[2usize, 5])));
+    }
+    let first = model_preserving_shuffle(rng, &setters, rkind);
+    let twin = model_preserving_shuffle(rng, &setters, rkind);
+    debug_assert_eq!(RenderModel::from_setters(&first, is_img), RenderModel::from_setters(&setters, is_img));
+    debug_assert_eq!(RenderModel::from_setters(&twin, is_img), RenderModel::from_setters(&setters, is_img));
+    for (slot, list) in [(0u8, &first), (1u8, &twin)] {
+        if is_img {
+            tg.imgs[slot as usize] = true;
+            ops.push(plain(Op::NewImg { slot }));
+            for s in list.iter() {
+                ops.push(plain(Op::ImgSet { slot, s: s.clone() }));
+            }
+        } else {
+            tg.svgs[slot as usize] = true;
+            tg.svg_has_panicky[slot as usize] = false;
+            ops.push(plain(Op::NewSvg { slot }));
+            for s in list.iter() {
+                ops.push(plain(Op::SvgSet { slot, s: s.clone() }));
+            }
+        }
+    }
+    for slot in [0u8, 1u8] {
+        let op = if is_img { Op::ImgRender { slot, qr, pixmap: false } } else { Op::SvgRender { slot, qr } };
+        ops.push(faulted(rng, sw, op, None));
     }
 }
